@@ -34,7 +34,8 @@ def gen_cases_default(rng, n, tier, cfgs=None, manualtx=False):
     cfgs = cfgs or (all_cfgs('blog') + all_cfgs('comp')[::4] + all_cfgs('blog', dict(excl_notes=True))[::4]
                     + all_cfgs('blog', dict(class_names=True))[::4] + all_cfgs('comp', dict(class_names=True))[::8]
                     + all_cfgs('blog', dict(defaults=True))[::4] + all_cfgs('own')[::4]
-                    + all_cfgs('blog', dict(excl_fk=True))[::4])
+                    + all_cfgs('blog', dict(excl_fk=True))[::4]
+                    + [c for c in all_cfgs('inh') if not c['null_delete']][::2])
     out = []
     for i in range(n):
         cfg = dict(cfgs[i % len(cfgs)])
